@@ -40,6 +40,18 @@ int vpd_alloc_calls;
  * nameserver and handle).  cbmc reports the first access to the released block as "deallocated dynamic object"; the
  * tombstone only keeps a stale ring walk *after* that report concrete (it spins on the tombstone until the unwinding
  * bound) instead of continuing through NULL / invalid pointers, which costs symex minutes. */
+static char *vpd_strdup(const char *s)
+{
+	size_t n = 0, i; char *p;
+	if (!s) return NULL;
+	while (s[n]) n++;
+	vp_alloc_calls++;
+	if (vp_alloc_should_fail()) return NULL;
+	p = malloc(n + 1);
+	__CPROVER_assume(p != NULL);
+	for (i = 0; i <= n; i++) p[i] = s[i];
+	return p;
+}
 static struct vpd_request_obj vpd_tomb;
 static void vpd_free(void *p)
 {
@@ -105,6 +117,7 @@ static void *vpd_memcpy(void *d, const void *s, size_t n)
 	size_t i;
 	vpd_check_write(d, n);
 	if (n == sizeof(struct reply)) *(struct reply *)d = *(const struct reply *)s;
+	else if (n == sizeof(struct evutil_addrinfo)) *(struct evutil_addrinfo *)d = *(const struct evutil_addrinfo *)s;
 	else if (n == sizeof(struct vpd_request_obj) || n == sizeof(struct request) + VPD_REQDATA) *(struct vpd_request_obj *)d = *(const struct vpd_request_obj *)s;
 	else for (i = 0; i < n; i++) ((unsigned char *)d)[i] = ((const unsigned char *)s)[i];
 	return d;
